@@ -13,7 +13,7 @@ Extraction "model.ml"
   Shard.ms_empty Shard.add_cas_block Shard.add_file_info Shard.serialize_from Shard.load_footer Shard.read_all_files Shard.read_all_cas
   Shard.get_file_info Shard.probe_exact Shard.search Shard.read_tbl12 Shard.read_tbl16 Shard.parse_cas_info Shard.parse_file_info
   Shard.shard_file_size Shard.mem_union Shard.mem_difference Shard.mem_dedup_query Shard.dedup_query Shard.dedup_direct Shard.export_keyed
-  Shard.truncate_hash Shard.recalc_size Shard.keyed Shard.disk_union Shard.disk_difference Shard.direct_rec Shard.export_with_expiration Shard.stream_walk
+  Shard.truncate_hash Shard.recalc_size Shard.keyed Shard.disk_union Shard.disk_difference Shard.direct_rec Shard.export_with_expiration Shard.stream_walk Shard.minimal_from_reader
   Manager.book0 Manager.register Manager.mgr_query Manager.keyed_cass Manager.mkRS Manager.b_total Manager.mgr0 Manager.mgr_step Manager.mgr_dedup Manager.mgr_run Manager.batch_order
   ShardFacts.size_replace_aware ShardFacts.size_per_occurrence
   Xorb.bg4_split Xorb.bg4_regroup Xorb.xorb_serialize Xorb.xorb_deserialize Xorb.get_all_bytes Xorb.get_bytes_by_chunk_range
